@@ -1704,6 +1704,12 @@ func (v *VMValue) AsDictKey() (string, error) {
 }
 
 func ValueEqual(a *VMValue, b *VMValue, autoConvert bool) bool {
+	return valueEqualVisit(a, b, autoConvert, nil)
+}
+
+// valueEqualVisit 带环检测的比较: onPath 记录当前比较路径上的(容器,容器)对，
+// 再次遇到同一对说明两边都绕回了环上，按相等处理(否则两个各自含有自身的数组比较时会无限递归)
+func valueEqualVisit(a *VMValue, b *VMValue, autoConvert bool, onPath map[[2]any]bool) bool {
 	if a == b {
 		return true
 	}
@@ -1719,8 +1725,17 @@ func ValueEqual(a *VMValue, b *VMValue, autoConvert bool) bool {
 			if len(arr1.List) != len(arr2.List) {
 				return false
 			}
+			key := [2]any{arr1, arr2}
+			if onPath[key] {
+				return true
+			}
+			if onPath == nil {
+				onPath = map[[2]any]bool{}
+			}
+			onPath[key] = true
+			defer delete(onPath, key)
 			for index, i := range arr1.List {
-				if !ValueEqual(i, arr2.List[index], autoConvert) {
+				if !valueEqualVisit(i, arr2.List[index], autoConvert, onPath) {
 					return false
 				}
 			}
@@ -1731,9 +1746,18 @@ func ValueEqual(a *VMValue, b *VMValue, autoConvert bool) bool {
 			if d1.Dict.Length() != d2.Dict.Length() {
 				return false
 			}
+			pair := [2]any{d1, d2}
+			if onPath[pair] {
+				return true
+			}
+			if onPath == nil {
+				onPath = map[[2]any]bool{}
+			}
+			onPath[pair] = true
+			defer delete(onPath, pair)
 			isSame := true
 			d1.Dict.Range(func(key string, value *VMValue) bool {
-				isEqual := ValueEqual(value, d2.Dict.MustLoad(key), autoConvert)
+				isEqual := valueEqualVisit(value, d2.Dict.MustLoad(key), autoConvert, onPath)
 				if !isEqual {
 					isSame = false
 					return false
